@@ -196,7 +196,7 @@ class World:
                     rec = {"file": world.rel(filename), "proposed": len(changeset), "applicable": len(applicable)}
                     if changeset:
                         c = changeset[0]
-                        rec["first"] = {"del": sorted(c.linenos_to_delete), "add": c.lines_to_add, "error": c.error_str}
+                        rec["first"] = {"del": sorted(c.linenos_to_delete), "add": c.lines_to_add, "error": str(c.error_str).replace(world.root, "<T>")}
                     world.sim["applied"].append(rec)
                     rotated[filename] = changeset
                 world.sim["writes"] = 0
